@@ -334,6 +334,7 @@ def run_shard(rec, seed, shard, tier):
     warnings.filterwarnings("ignore")
     if shard.get("i", 1) % 2 == 1:
         real.hostile_prelude(rec)  # a past: nothing the check decides may depend on it
+        real.toplevel_probes(rec, None, "after the hostile prelude")
     GT.ensure_registered()
     run_identity(rec, random.Random(f"{seed}/C08/{shard['i']}/identity"))
     for k in range(CASES[tier]):
